@@ -551,6 +551,7 @@ def run_real_life(directory, run, seed):
     slots = {}
     model_ops = []
     uuid_mod.uuid4 = fake_uuid4
+    raised = None
     try:
         params = WARCRecorderParams(
             compress=cfg['compress'], extra_fields=[tuple(x) for x in cfg['extra']] or None, temp_dir=directory,
@@ -559,99 +560,112 @@ def run_real_life(directory, run, seed):
         rec = WARCRecorder(os.path.join(directory, PREFIX), params=params)
         software = cfg['software'] or WARCRecorder.DEFAULT_SOFTWARE_STRING
         logs = list(run.get('logs', []))
-        for op in run['ops']:
-            o, k = op['op'], op['k']
-            if logs and o in ('bq', 'bc'):
-                logging.getLogger('wpull.verif').info(logs.pop(0))
-            if o == 'bq':
-                sess = rec.new_http_recorder_session()
-                req = Request(op['url'], method=op['method'])
-                req.address = (op['ip'], op['port'])
-                for n, v in op['fields']:
-                    req.fields.add(n, v)
-                if op['body_len']:
-                    req.fields['Content-Length'] = str(op['body_len'])
-                req.prepare_for_send()
-                n0 = len(created)
-                sess.begin_request(req)
-                slots[k] = {'sess': sess, 'req': req, 'req_id': created[n0] if len(created) > n0 else None}
-                model_ops.append('bq %d %s %s' % (k, enc(req.url_info.url), enc(op['ip'])))
-            elif o == 'eq':
-                s = slots[k]
-                head = s['req'].to_bytes()
-                s['sess'].request_data(head)
-                for c in chunks_of(op['body'], op['cuts']):
-                    s['sess'].request_data(c)
-                s['sess'].end_request(s['req'])
-                block = head + op['body']
-                meta[s['req_id']] = {'kind': 'request', 'full': block, 'hdrlen': len(head)}
-                model_ops.append('eq %d %s %d' % (k, enc(block), len(head)))
-            elif o == 'bp':
-                s = slots[k]
-                lines = header_lines(op['header'])
-                for l in lines:
-                    s['sess'].response_data(l)          # what Stream.read_response notifies, line by line
-                resp = Response()
-                resp.parse(b''.join(lines[:-1]))
-                resp.request = s['req']
-                n0 = len(created)
-                s['sess'].begin_response(resp)
-                s['resp'] = resp
-                s['header'] = op['header']
-                s['resp_id'] = created[n0] if len(created) > n0 else None
-                model_ops.append('bp %d' % k)
-            elif o == 'ep':
-                s = slots[k]
-                for c in chunks_of(op['body'], op['cuts']):
-                    s['sess'].response_data(c)
-                if table is not None:
-                    table.answer = op['revisit']
-                s['sess'].end_response(s['resp'])
-                block = s['header'] + op['body']
-                meta[s['resp_id']] = {'kind': 'response', 'full': block, 'hdrlen': len(s['header']),
-                                      'revisit': op['revisit'] if table is not None else None,
-                                      'status': op.get('status'), 'mime': op.get('mime'), 'linesep': op.get('linesep', False)}
-                model_ops.append(['ep', k, block, (op['revisit'] if table is not None else None)])
-            elif o == 'cs':
-                slots[k]['sess'].close()
-                model_ops.append('cs')
-            elif o == 'bc':
-                sess = rec.new_ftp_recorder_session()
-                req = FTPRequest(op['url'])
-                req.address = (op['ip'], op['port'])
-                n0 = len(created)
-                sess.begin_control(req, connection_reused=op['reused'])
-                for d, data in op['ctrl']:
-                    (sess.control_send_data if d == 'send' else sess.control_receive_data)(data)
-                slots[k] = {'sess': sess, 'req': req, 'ctrl_id': created[n0] if len(created) > n0 else None}
-                model_ops.append('bc %d %s %s' % (k, enc(req.url_info.url), enc(op['ip'])))
-            elif o == 'bt':
-                s = slots[k]
-                resp = FTPResponse()
-                resp.data_address = tuple(op['data_address'])
-                n0 = len(created)
-                s['sess'].begin_transfer(resp)
-                s['resp'] = resp
-                s['data_id'] = created[n0] if len(created) > n0 else None
-                model_ops.append('bt %d' % k)
-            elif o == 'et':
-                s = slots[k]
-                for c in chunks_of(op['data'], op['cuts']):
-                    s['sess'].transfer_receive_data(c)
-                s['sess'].end_transfer(s['resp'])
-                meta[s['data_id']] = {'kind': 'ftp-data', 'full': op['data']}
-                model_ops.append('et %d %s' % (k, enc(op['data'])))
-            elif o == 'ec':
-                s = slots[k]
-                for d, data in op['ctrl']:
-                    (s['sess'].control_send_data if d == 'send' else s['sess'].control_receive_data)(data)
-                resp = s.get('resp') or FTPResponse()
-                s['sess'].end_control(resp, connection_closed=op['closed'])
-                meta[s['ctrl_id']] = {'kind': 'ftp-control'}
-                model_ops.append(['ec', k, s['ctrl_id']])
-            else:
-                raise Infra('unknown op %r' % o)
-        rec.close()
+        for op_index, op in enumerate(run['ops'] + [{'op': 'close', 'k': None}]):
+          try:
+              o, k = op['op'], op['k']
+              if o == 'close':
+                  rec.close()
+                  break
+              if logs and o in ('bq', 'bc'):
+                  logging.getLogger('wpull.verif').info(logs.pop(0))
+              if o == 'bq':
+                  sess = rec.new_http_recorder_session()
+                  req = Request(op['url'], method=op['method'])
+                  req.address = (op['ip'], op['port'])
+                  for n, v in op['fields']:
+                      req.fields.add(n, v)
+                  if op['body_len']:
+                      req.fields['Content-Length'] = str(op['body_len'])
+                  req.prepare_for_send()
+                  n0 = len(created)
+                  sess.begin_request(req)
+                  slots[k] = {'sess': sess, 'req': req, 'req_id': created[n0] if len(created) > n0 else None}
+                  model_ops.append('bq %d %s %s' % (k, enc(req.url_info.url), enc(op['ip'])))
+              elif o == 'eq':
+                  s = slots[k]
+                  head = s['req'].to_bytes()
+                  s['sess'].request_data(head)
+                  for c in chunks_of(op['body'], op['cuts']):
+                      s['sess'].request_data(c)
+                  s['sess'].end_request(s['req'])
+                  block = head + op['body']
+                  meta[s['req_id']] = {'kind': 'request', 'full': block, 'hdrlen': len(head)}
+                  model_ops.append('eq %d %s %d' % (k, enc(block), len(head)))
+              elif o == 'bp':
+                  s = slots[k]
+                  lines = header_lines(op['header'])
+                  for l in lines:
+                      s['sess'].response_data(l)          # what Stream.read_response notifies, line by line
+                  resp = Response()
+                  resp.parse(b''.join(lines[:-1]))
+                  resp.request = s['req']
+                  n0 = len(created)
+                  s['sess'].begin_response(resp)
+                  s['resp'] = resp
+                  s['header'] = op['header']
+                  s['resp_id'] = created[n0] if len(created) > n0 else None
+                  model_ops.append('bp %d' % k)
+              elif o == 'ep':
+                  s = slots[k]
+                  for c in chunks_of(op['body'], op['cuts']):
+                      s['sess'].response_data(c)
+                  if table is not None:
+                      table.answer = op['revisit']
+                  s['sess'].end_response(s['resp'])
+                  block = s['header'] + op['body']
+                  meta[s['resp_id']] = {'kind': 'response', 'full': block, 'hdrlen': len(s['header']),
+                                        'revisit': op['revisit'] if table is not None else None,
+                                        'status': op.get('status'), 'mime': op.get('mime'), 'linesep': op.get('linesep', False)}
+                  model_ops.append(['ep', k, block, (op['revisit'] if table is not None else None)])
+              elif o == 'cs':
+                  slots[k]['sess'].close()
+                  model_ops.append('cs')
+              elif o == 'bc':
+                  sess = rec.new_ftp_recorder_session()
+                  req = FTPRequest(op['url'])
+                  req.address = (op['ip'], op['port'])
+                  n0 = len(created)
+                  sess.begin_control(req, connection_reused=op['reused'])
+                  for d, data in op['ctrl']:
+                      (sess.control_send_data if d == 'send' else sess.control_receive_data)(data)
+                  slots[k] = {'sess': sess, 'req': req, 'ctrl_id': created[n0] if len(created) > n0 else None}
+                  model_ops.append('bc %d %s %s' % (k, enc(req.url_info.url), enc(op['ip'])))
+              elif o == 'bt':
+                  s = slots[k]
+                  resp = FTPResponse()
+                  resp.data_address = tuple(op['data_address'])
+                  n0 = len(created)
+                  s['sess'].begin_transfer(resp)
+                  s['resp'] = resp
+                  s['data_id'] = created[n0] if len(created) > n0 else None
+                  model_ops.append('bt %d' % k)
+              elif o == 'et':
+                  s = slots[k]
+                  for c in chunks_of(op['data'], op['cuts']):
+                      s['sess'].transfer_receive_data(c)
+                  s['sess'].end_transfer(s['resp'])
+                  meta[s['data_id']] = {'kind': 'ftp-data', 'full': op['data']}
+                  model_ops.append('et %d %s' % (k, enc(op['data'])))
+              elif o == 'ec':
+                  s = slots[k]
+                  for d, data in op['ctrl']:
+                      (s['sess'].control_send_data if d == 'send' else s['sess'].control_receive_data)(data)
+                  resp = s.get('resp') or FTPResponse()
+                  s['sess'].end_control(resp, connection_closed=op['closed'])
+                  meta[s['ctrl_id']] = {'kind': 'ftp-control'}
+                  model_ops.append(['ec', k, s['ctrl_id']])
+              else:
+                  raise Infra('unknown op %r' % o)
+          except Infra:
+              raise
+          except Exception as e:
+              # these lives inject no fault: nothing may leave the recorder's API
+              import traceback
+              tb = traceback.extract_tb(e.__traceback__)
+              frames = [f for f in tb if '/wpull/' in f.filename]
+              where = frames[-1].name if frames else 'recorder'
+              raised = {'type': type(e).__name__, 'where': where, 'op': op['op'], 'index': op_index, 'text': str(e)[:200]}
+              break
     finally:
         uuid_mod.uuid4 = real_uuid4
         for h in list(root.handlers):
@@ -663,7 +677,7 @@ def run_real_life(directory, run, seed):
         with open(os.path.join(directory, n), 'rb') as f:
             after[n] = f.read()
     return {'cfg': cfg, 'before': before, 'after': after, 'created': created, 'meta': meta,
-            'model_ops': model_ops, 'software': software}
+            'model_ops': model_ops, 'software': software, 'raised': raised}
 
 
 def parse_life(obs):
@@ -1088,6 +1102,13 @@ def run_scenario(scn, seed='s'):
         expectations = {}
         for li, run in enumerate(scn['runs']):
             obs = run_real_life(directory, run, '%s/%d' % (seed, li))
+            if obs['raised']:
+                r = obs['raised']
+                f = ('recorder-raised', r['where'], '%s(%s) left the recorder at op %d (%s) of life %d; no fault was injected'
+                     % (r['type'], r['text'], r['index'], r['op'], li))
+                out.c05.append(f)
+                out.c07.append(f)
+                break
             by_file, problems = parse_life(obs)
             fails, all_ids = oracle_c05(obs, by_file, problems, all_ids)
             out.c05 += fails
